@@ -23,7 +23,9 @@
     * `checkModel_empty_root_exact`           every model whose root has `maxOccurs = 0` (former C15-F2)
   refusal ⇒ violation, every variant
     * `checkModel_flat_seq_refusal_sound`     every flat sequence, ANY root range (repeating or not)
-    * `checkModel_edc_error_sound`            ALL models: an EDC refusal is a real EDC violation
+    * `checkModel_edc_error_sound`            ALL models: an EDC refusal is a real EDC violation (with the repair
+                                              of C15-F4; false for the code as it is:
+                                              `checkModel_edc_loop_variable_counterexample` (hd, b, md))
   structure of refusals / acceptances on ALL models, every variant
     * `checkModel_upa_error_overlap`, `checkModel_accepts_edc_direct`,
       `checkModel_v11_element_wildcard_never_error`
@@ -261,10 +263,13 @@ theorem tableCovers_spec {M : Ctx} {T : TypeTable} {p : Particle} (h : M.tableCo
 
 /-- **An EDC refusal is always right**: whenever the port of `check_model` raises "Element Declarations
     Consistent violation" — any model, any nesting, wildcards and substitution groups included, both XSD
-    versions, the pinned algorithm and every combination of the proposed repairs (`M.fx`) — the model does
-    violate EDC: two declarations it contains (directly or through a substitution group) have the same name
-    and different types. -/
-theorem checkModel_edc_error_sound (M : Ctx) (T : TypeTable) (p : Particle) (hT : M.tableCovers T p = true) (e pe : Nat)
+    versions — the model does violate EDC: two declarations it contains (directly or through a substitution
+    group) have the same name and different types.  Holds for the algorithm with the repair of finding C15-F4
+    (`fx.edcLoop`, notes/fixes/C15-edc-loop-variable.patch) and every combination of the other repairs, and for
+    the XSD 1.0 name-only test; for the code as it is the statement is FALSE when substitutes are walked:
+    `checkModel_edc_loop_variable_counterexample`. -/
+theorem checkModel_edc_error_sound (M : Ctx) (T : TypeTable) (p : Particle) (hT : M.tableCovers T p = true)
+    (hfix : M.fx.edcLoop = true ∨ (M.v11 = false ∧ M.fx.edc10 = false)) (e pe : Nat)
     (h : (M.checkModel p).err = some (.edc e pe)) : ¬ EDC T p := by
   obtain ⟨he, hpe, hc⟩ := checkModel_edc_pair M p e pe h
   intro hedc
@@ -294,7 +299,11 @@ theorem checkModel_edc_error_sound (M : Ctx) (T : TypeTable) (p : Particle) (hT 
             have hn := List.find?_some hf
             have hn' : e2.1 = (M.info e).name := by simpa using hn
             have : (M.info e).ty = e2.2 := hedc _ da _ hm hn'.symm
-            simp [this] at hc
+            have hl : M.fx.edcLoop = true := by
+              rcases hfix with hf | ⟨h1, h2⟩
+              · exact hf
+              · simp [h1, h2] at hv
+            simp [this, hl] at hc
           · cases hc
   · simp [hel] at hc
 
@@ -560,9 +569,9 @@ def qs : QN := ⟨"urn:t", "s"⟩
 def ctxOf (v11 : Bool) (n : Nat) (p : Particle) (infos : List (Nat × EInfo)) (fx : Fixes := {}) : Ctx :=
   mkCtx v11 n p.flatten infos [qa, qb, qh, qs] fx
 
-/-- finite case analysis over the sixteen combinations of the proposed repairs -/
+/-- finite case analysis over the thirty-two combinations of the proposed repairs -/
 macro "all_fx " fx:ident : tactic =>
-  `(tactic| (obtain ⟨a, b, c, d⟩ := $fx; cases a <;> cases b <;> cases c <;> cases d <;> decide))
+  `(tactic| (obtain ⟨a, b, c, d, e⟩ := $fx; cases a <;> cases b <;> cases c <;> cases d <;> cases e <;> decide))
 
 /-- `(a, a*)+` -/
 def pMissed : Particle :=
@@ -757,6 +766,35 @@ theorem checkModel_false_alarm_norepeat_counterexample (fx : Fixes) :
     (ctxOf false 6 pDeep [ei 3 qa, ei 4 qc, ei 5 qa] fx).accepts pDeep = false ∧ UPA [qa, qc] false pDeep := by
   refine ⟨by all_fx fx, upa_of_isCert _ _ _ 20 (by decide)⟩
 
+def qhd : QN := ⟨"urn:t", "hd"⟩
+def qmd : QN := ⟨"urn:t", "md"⟩
+def qmd2 : QN := ⟨"urn:t", "md2"⟩
+/-- `(hd, b, md)`: references to the head `hd : T0`, to `b`, and to the member `md : T1` of the group of `hd`,
+    which has a member `md2 : T2` of its own -/
+def pLoop : Particle :=
+  .group 0 .seq 1 (some 1) (.cons (.leaf (.elem 1 [qhd, qmd, qmd2]) 1 (some 1))
+    (.cons (el 2 qb) (.cons (.leaf (.elem 3 [qmd, qmd2]) 1 (some 1)) .nil)))
+def iLoop : List (Nat × EInfo) :=
+  [(1, { name := qhd, ty := 0, direct := [qmd], subs := [(qmd, 1), (qmd2, 2)] }), ei 2 qb,
+   (3, { name := qmd, ty := 1, sgHead := some qhd, direct := [qmd2], subs := [(qmd2, 2)] })]
+def tLoop : TypeTable := [(1, [(qhd, 0), (qmd, 1), (qmd2, 2)]), (2, [(qb, 0)]), (3, [(qmd, 1), (qmd2, 2)])]
+
+/-- **Finding C15-F4** — `is_consistent` lets the loop variable of its first, unsuccessful search leak into the type
+    comparison: for `md` against the earlier `hd` it compares the type of `md2` (the last substitute of `md`)
+    with the type of the `md` found among the substitutes of `hd`.  `(hd, b, md)` is refused with an EDC error
+    although it is deterministic and consistent (and the type table covers the port's data: only the guard
+    `fx.edcLoop` of `checkModel_edc_error_sound` fails).  XSD 1.1, and XSD 1.0 since the EDC repair; with the
+    repair of the loop (`fx.edcLoop`) the model is accepted. -/
+theorem checkModel_edc_loop_variable_counterexample :
+    ((ctxOf true 4 pLoop iLoop).checkModel pLoop).err = some (.edc 3 1) ∧
+    ((ctxOf false 4 pLoop iLoop { edc10 := true }).checkModel pLoop).err = some (.edc 3 1) ∧
+    (ctxOf true 4 pLoop iLoop { edcLoop := true }).accepts pLoop = true ∧
+    (ctxOf false 4 pLoop iLoop { edc10 := true, edcLoop := true }).accepts pLoop = true ∧
+    (ctxOf true 4 pLoop iLoop).tableCovers tLoop pLoop = true ∧
+    UPA [qhd, qmd, qmd2, qb] true pLoop ∧ EDC tLoop pLoop := by
+  refine ⟨by decide, by decide, by decide, by decide, by decide, upa_of_isCert _ _ _ 20 (by decide),
+    (edc_spec _ _).mp (by decide)⟩
+
 /-! ### the proposed repairs (notes/fixes/C15-*.patch) on the witnesses
 
   The counter-examples above marked "pinned" (`ctxOf … {}`) describe the code as it is.  With the repair in
@@ -773,8 +811,8 @@ theorem checkModel_repairs_effective (v11 : Bool) (fx : Fixes) :
         (ctxOf v11 3 pSeqRep [ei 1 qa, ei 2 qa] fx).accepts pSeqRep = false) ∧
     (fx.shared = true → (ctxOf v11 5 pSharedM [(3, { name := qa, ty := 0 })] fx).accepts pSharedM = false) ∧
     (fx.edc10 = true → (ctxOf v11 3 pEdc iEdc fx).accepts pEdc = false) := by
-  obtain ⟨a, b, c, d⟩ := fx
-  cases v11 <;> cases a <;> cases b <;> cases c <;> cases d <;> decide
+  obtain ⟨a, b, c, d, e⟩ := fx
+  cases v11 <;> cases a <;> cases b <;> cases c <;> cases d <;> cases e <;> decide
 
 /-- **What the repeated-sequence repair leaves open on flat sequences**: `(a, a, a*)*` is accepted by every
     variant although after `a a` the next `a` belongs to the third particle or, in a new iteration, to the
@@ -885,8 +923,9 @@ example : ((ctxOf false 6 pDeep [ei 3 qa, ei 4 qc, ei 5 qa]).checkModel pDeep).e
 
 /-- the hypotheses of `checkModel_edc_error_sound` are met: XSD 1.1 refuses `(h, s:int)` with an EDC error and
     the type table covers the port's data -/
-example : ((ctxOf true 3 pEdc iEdc).checkModel pEdc).err = some (.edc 2 1) ∧
-    (ctxOf true 3 pEdc iEdc).tableCovers [(1, [(qh, 0), (qs, 0)]), (2, [(qs, 1)])] pEdc = true := by decide
+example : ((ctxOf true 3 pEdc iEdc { edcLoop := true }).checkModel pEdc).err = some (.edc 2 1) ∧
+    (ctxOf true 3 pEdc iEdc { edcLoop := true }).tableCovers [(1, [(qh, 0), (qs, 0)]), (2, [(qs, 1)])] pEdc = true ∧
+    (ctxOf true 3 pEdc iEdc { edcLoop := true }).fx.edcLoop = true := by decide
 
 /-- `(a?, b, a{2,2}, a+)?` is a member of the fragment of `checkModel_refines_flat_seq_partial` (guard holds) and
     is accepted; `(a?, c?, a)` is a member that is refused -/
